@@ -100,6 +100,9 @@ type c18Pool struct {
 	// with options (an application keeps such values around and reuses them)
 	opts     []decode.DecodeOption
 	optsDesc string
+	// a configured Generator kept as a template: pipelines take a copy by
+	// value and set their own destination and transform on the copy
+	tmpl generate.Generator
 }
 
 type c18Task struct {
@@ -204,6 +207,7 @@ func c18BuildPool(ctx *Ctx, t *tape.Tape) *c18Pool {
 	default:
 		col = color.RGBA64{uint16(t.Intn(65536)), uint16(t.Intn(65536)), uint16(t.Intn(65536)), 0xffff}
 	}
+	p.tmpl.SetTransform(generate.Scale(2), generate.Translate(-32, -32))
 	p.opts = []decode.DecodeOption{decode.WithPalette(*p.pals[0]), decode.WithColorAt(idx, col)}
 	p.optsDesc = fmt.Sprintf("shared options: WithPalette(pal#0), WithColorAt(%d, %T%v)", idx, col, col)
 	return p
@@ -232,8 +236,19 @@ func (p *c18Pool) hash() uint64 {
 			}
 			for _, s := range pr[i].Stops {
 				h = fnvAdd(h, uint64(float32bits(s.Offset)))
-				if c, ok := s.Color.(color.RGBA); ok {
-					h = fnvAdd(h, uint64(c.R)|uint64(c.G)<<8|uint64(c.B)<<16|uint64(c.A)<<24)
+				// dynamic type and value: a conversion stored back into the
+				// caller's slice changes the type even where the colour is the same
+				switch c := s.Color.(type) {
+				case color.RGBA:
+					h = fnvAdd(h, 1<<40|uint64(c.R)|uint64(c.G)<<8|uint64(c.B)<<16|uint64(c.A)<<24)
+				case color.NRGBA:
+					h = fnvAdd(h, 2<<40|uint64(c.R)|uint64(c.G)<<8|uint64(c.B)<<16|uint64(c.A)<<24)
+				case color.Gray16:
+					h = fnvAdd(h, 3<<40|uint64(c.Y))
+				case color.RGBA64:
+					h = fnvAdd(h, 4<<40|uint64(c.R)|uint64(c.G)<<16|uint64(c.B)<<32|uint64(c.A)<<48)
+				default:
+					h = fnvAdd(h, fnv([]byte(fmt.Sprintf("%T%v", s.Color, s.Color))))
 				}
 			}
 		}
@@ -362,11 +377,11 @@ func c18MakeTask(t *tape.Tape, p *c18Pool) c18Task {
 		d := world.GenPathData(t, true)
 		sx, tx := float32(1+t.Intn(4)), float32(t.Range(-32, 32))
 		hi := t.Bool()
-		return c18Task{"Generator.SetTransform + SetPathData -> Encoder", func() string {
+		return c18Task{"copy of a template Generator: SetTransform + SetPathData -> Encoder", func() string {
 			var e encode.Encoder
 			e.Reset(ivg.DefaultViewBox, ivg.DefaultPalette)
 			e.HighResolutionCoordinates = hi
-			var g generate.Generator
+			g := p.tmpl // a by-value copy of the shared, already configured template
 			g.SetDestination(wrap(&e))
 			g.SetTransform(generate.Scale(sx), generate.Translate(tx, -tx))
 			err := g.SetPathData(d, 0)
